@@ -114,6 +114,11 @@ class ModelBackend:
         self.files[d] = Ent(True, e.data)      # the (possibly lazy) content moves with the entry
         self.files[s] = Ent(False, b"")
 
+    def link(self, s, d):
+        # a second name for the same content, created in one step (writes through one name are not modelled to
+        # show through the other: the code under test never writes to a file it linked)
+        self.files[d] = Ent(True, self.files[s].data)
+
     def listdir(self, p):
         out = []
         for k in sorted(self.files):
@@ -177,6 +182,9 @@ class RealBackend:
     def rename(self, s, d):
         _os.rename(self._r(s), self._r(d))
 
+    def link(self, s, d):
+        _os.link(self._r(s), self._r(d))
+
     def listdir(self, p):
         return sorted(_os.listdir(self._r(p)))
 
@@ -211,6 +219,7 @@ class FS:
         self.injector = None      # callable(i, kind, path): may raise OSError / Crash
         self.on_point = None      # callable(kind, path): scheduling point
         self.owner_of = None      # optional callable() -> label of the running thread (for traces)
+        self.hardlinks = None     # optional callable() -> bool: does this file system support hard links?
 
     # ---- injection points
     def tick(self, kind, path):
@@ -242,8 +251,12 @@ class FS:
     @staticmethod
     def p(path):
         s = _os.fspath(path)
-        if len(s) > 1:
-            s = s.rstrip("/")
+        if isinstance(s, bytes):
+            s = s.decode("utf8", "surrogateescape")
+        # POSIX resolution without symbolic links: relative to the working directory "/", "." / ".." / "//" collapsed
+        s = posixpath.normpath(posixpath.join("/", s))
+        if s.startswith("//"):
+            s = "/" + s.lstrip("/")
         return s
 
     # ---- operations used by the shims
@@ -321,6 +334,18 @@ class FS:
                     h._orphan = True          # the file it had open was replaced
                 elif h.name == src:
                     h.name = dst
+
+    def link(self, src, dst):
+        src, dst = self.p(src), self.p(dst)
+        self.tick("link", dst)
+        if self.hardlinks is not None and not self.hardlinks():
+            raise PermissionError(errno.EPERM, "Operation not permitted (file system without hard links)", src)
+        if not self.b.isfile(src):
+            raise FileNotFoundError(errno.ENOENT, "No such file or directory", src)
+        self._need_parent(dst)
+        if self.b.isfile(dst) or self.b.isdir(dst):
+            raise FileExistsError(errno.EEXIST, "File exists", dst)
+        self.b.link(src, dst)
 
     def rmdir(self, path):
         path = self.p(path)
@@ -401,12 +426,15 @@ class FakeFile(_io.BufferedIOBase):
     writers: text handles until flush/close/seek/truncate/read, binary handles until two blocks have accumulated
     (then one 'write' operation) or flush/close.  Unflushed data is invisible to others and lost in a crash."""
 
-    def __init__(self, fs, path, mode, encoding=None):
+    _enc, _errors, _newline = "utf8", "strict", None      # text handles: codec and newline mode as in open()
+
+    def __init__(self, fs, path, mode, encoding=None, errors=None, newline=None):
         path = FS.p(path)
         self._fs = fs
         self.name = path
         self.mode = mode
         self._text = "b" not in mode
+        self._enc, self._errors, self._newline = encoding or "utf8", errors or "strict", newline
         base = mode.replace("b", "").replace("t", "")
         self._pending = []
         b = fs.b
@@ -426,6 +454,13 @@ class FakeFile(_io.BufferedIOBase):
                 b.write(path, b"")
             else:
                 b.create(path, b"")
+            self._pos = 0
+        elif base in ("x", "x+"):
+            fs.tick("open-x", path)
+            fs._need_parent(path)
+            if b.isfile(path) or b.isdir(path):
+                raise FileExistsError(errno.EEXIST, "File exists", path)
+            b.create(path, b"")
             self._pos = 0
         elif base == "a":
             fs.tick("open-a", path)
@@ -511,14 +546,51 @@ class FakeFile(_io.BufferedIOBase):
         self._pos += len(d)
         return d
 
+    def _tokens(self):
+        """text mode: the decoded rest of the file as (character(s) delivered, raw bytes consumed) pairs, with the
+        newline translation of open(newline=None) (universal newlines: CR LF and CR are delivered as LF)"""
+        self._chk()
+        self._sync()
+        s = self._cur()[self._pos:].decode(self._enc, self._errors)
+        out = []
+        i = 0
+        while i < len(s):
+            ch = s[i]
+            if ch == "\r" and self._newline is None:
+                if i + 1 < len(s) and s[i + 1] == "\n":
+                    out.append(("\n", len("\r\n".encode(self._enc))))
+                    i += 2
+                    continue
+                out.append(("\n", len(ch.encode(self._enc))))
+            else:
+                out.append((ch, len(ch.encode(self._enc, "surrogateescape" if self._errors != "strict" else "strict"))
+                            if self._errors == "strict" else 1))
+            i += 1
+        return out
+
+    def _take(self, toks):
+        self._pos += sum(t[1] for t in toks)
+        return "".join(t[0] for t in toks)
+
     def read(self, n=-1):
-        d = self._readbytes(n)
-        return d.decode("utf8") if self._text else d
+        if self._text:
+            toks = self._tokens()
+            return self._take(toks if n is None or n < 0 else toks[:n])
+        return self._readbytes(n)
 
     def read1(self, n=-1):
         return self.read(n)
 
     def readline(self, limit=-1):
+        if self._text:
+            toks = self._tokens()
+            k = 0
+            while k < len(toks):
+                k += 1
+                c = toks[k - 1][0]
+                if c == "\n" or (self._newline == "" and c == "\r" and not (k < len(toks) and toks[k][0] == "\n")):
+                    break
+            return self._take(toks[:k])
         self._chk()
         self._sync()
         buf = self._cur()
@@ -526,12 +598,15 @@ class FakeFile(_io.BufferedIOBase):
         end = len(buf) if j < 0 else j + 1
         d = buf[self._pos:end]
         self._pos = end
-        return d.decode("utf8") if self._text else d
+        return d
 
     def readlines(self, hint=-1):
-        d = self._readbytes()
-        s = d.decode("utf8") if self._text else d
-        return s.splitlines(True)
+        out = []
+        while True:
+            ln = self.readline()
+            if not ln:
+                return out
+            out.append(ln)
 
     def __iter__(self):
         return iter(self.readlines())
@@ -541,7 +616,9 @@ class FakeFile(_io.BufferedIOBase):
         if not self._writable:
             raise _io.UnsupportedOperation("not writable")
         if self._text:
-            d = d.encode("utf8")
+            if not isinstance(d, str):
+                raise TypeError("write() argument must be str, not %s" % type(d).__name__)
+            d = d.encode(self._enc, self._errors)
         else:
             d = bytes(d)
         if self._append:
@@ -563,7 +640,8 @@ class FakeFile(_io.BufferedIOBase):
         if size is None:
             size = self._pos
         self._fs.tick("truncate", self.name)
-        self._fs.b.write(self.name, self._cur()[:size])
+        cur = self._cur()
+        self._fs.b.write(self.name, cur[:size] + b"\0" * (size - len(cur)))
         return size
 
     def flush(self):
@@ -598,6 +676,19 @@ class _Stat:
         self.st_size = size
         self.st_blksize = blksize
         self.st_mode = (_stat.S_IFDIR | 0o755) if isdir else (_stat.S_IFREG | 0o664)
+
+
+class _NS(types.SimpleNamespace):
+    """stand-in for a standard module: the listed functions are the model's; constants (SEEK_CUR, O_*,
+    DEFAULT_BUFFER_SIZE, ...) fall through to the real module; any other function is an environment gap (never the
+    real one, which would touch the real file system)"""
+
+    def __getattr__(self, n):
+        real = self.__dict__.get("_real")
+        if real is not None and hasattr(real, n) and not callable(getattr(real, n)):
+            return getattr(real, n)
+        raise AttributeError("module %r has no attribute %r in the environment model" % (
+            getattr(real, "__name__", "?"), n))
 
 
 class _NullLog:
@@ -638,8 +729,8 @@ class Shim:
             for d in dirs:
                 yield from _walk(posixpath.join(top, d))
 
-        def fake_open(path, mode="r", *a, **k):
-            return FakeFile(H.fs, path, mode)
+        def fake_open(path, mode="r", buffering=-1, encoding=None, errors=None, newline=None, *a, **k):
+            return FakeFile(H.fs, path, mode, encoding, errors, newline)
 
         def named_tmp(dir=None, delete=True, **k):
             F = H.fs
@@ -765,8 +856,8 @@ class Shim:
             relpath=posixpath.relpath, split=posixpath.split, splitext=posixpath.splitext,
             normpath=posixpath.normpath, isabs=posixpath.isabs, realpath=posixpath.abspath,
             expanduser=lambda p: p, sep="/")
-        self.os = types.SimpleNamespace(
-            path=self.path, fspath=_os.fspath, PathLike=_os.PathLike, sep="/", linesep="\n",
+        self.os = _NS(
+            _real=_os, link=d("link"), path=self.path, fspath=_os.fspath, PathLike=_os.PathLike, sep="/", linesep="\n",
             makedirs=d("makedirs"), remove=d("remove"), unlink=d("remove"), rename=d("rename"),
             replace=d("rename"), rmdir=d("rmdir"), removedirs=d("removedirs"), listdir=d("listdir"), stat=_stat_fn, chmod=d("chmod"), umask=lambda m: 0o22,
             getenv=lambda k, dflt=None: H.fs.env.get(k, dflt), walk=_walk, getcwd=lambda: "/", environ=EnvProxy(),
@@ -820,8 +911,8 @@ class Shim:
 
         self.shutil = types.SimpleNamespace(move=d("move"), copyfile=copyfile, copymode=copymode, copystat=copymode,
                                             copy=copy, copy2=copy, rmtree=rmtree, Error=OSError)
-        self.io = types.SimpleNamespace(
-            open=fake_open, BufferedIOBase=_io.BufferedIOBase, BufferedReader=_io.BufferedReader,
+        self.io = _NS(
+            _real=_io, open=fake_open, BufferedIOBase=_io.BufferedIOBase, BufferedReader=_io.BufferedReader,
             BytesIO=_io.BytesIO, StringIO=_io.StringIO, IOBase=_io.IOBase, TextIOWrapper=_io.TextIOWrapper,
             UnsupportedOperation=_io.UnsupportedOperation)
         self.open = fake_open
